@@ -101,6 +101,7 @@ func (c *connection) onPrepare(opts *options) (err error) {
 		c.SetWriteTimeout(opts.writeTimeout)
 		c.SetIdleTimeout(opts.idleTimeout)
 
+		verifPoint(vpOnPrepareEnter, c, 0)
 		// calling prepare first and then register.
 		if opts.onPrepare != nil {
 			c.ctx = opts.onPrepare(c)
@@ -110,6 +111,7 @@ func (c *connection) onPrepare(opts *options) (err error) {
 	if c.ctx == nil {
 		c.ctx = context.Background()
 	}
+	verifPoint(vpOnPrepareBeforeRegister, c, 0)
 	// prepare may close the connection.
 	if c.IsActive() {
 		return c.register()
@@ -134,6 +136,7 @@ func (c *connection) onConnect() {
 
 // when onDisconnect called, c.IsActive() must return false
 func (c *connection) onDisconnect() {
+	verifPoint(vpOnDisconnectEnter, c, 0)
 	onDisconnect, _ := c.onDisconnectCallback.Load().(OnDisconnect)
 	if onDisconnect == nil {
 		return
@@ -150,6 +153,7 @@ func (c *connection) onDisconnect() {
 	if c.getState() != connStateNone && c.lock(connecting) { // means OnConnect already finished
 		// protect onDisconnect run once
 		// if CAS return false, means OnConnect already helps to run onDisconnect
+		verifPoint(vpOnDisconnectLocked, c, 0)
 		if c.changeState(connStateConnected, connStateDisconnected) {
 			onDisconnect(c.ctx, c)
 		}
@@ -157,6 +161,7 @@ func (c *connection) onDisconnect() {
 		return
 	}
 	// OnConnect is not finished yet, return and let onConnect helps to call onDisconnect
+	verifPoint(vpOnDisconnectDeferred, c, 0)
 }
 
 // onRequest is responsible for executing the closeCallbacks after the connection has been closed.
@@ -168,8 +173,10 @@ func (c *connection) onRequest() (needTrigger bool) {
 	// wait onConnect finished first
 	if c.getState() == connStateNone && c.onConnectCallback.Load() != nil {
 		// let onConnect to call onRequest
+		verifPoint(vpOnRequestDeferred, c, 0)
 		return
 	}
+	verifPoint(vpOnRequestEnter, c, 0)
 	processed := c.onProcess(nil, onRequest)
 	// if not processed, should trigger read
 	return !processed
@@ -189,17 +196,21 @@ func (c *connection) onProcess(onConnect OnConnect, onRequest OnRequest) (proces
 			if !panicked {
 				return
 			}
+			verifPoint(vpPanicDeferEnter, c, 0)
 			// cannot use recover() here, since we don't want to break the panic stack
 			c.unlock(processing)
+			verifPoint(vpPanicDeferAfterUnlock, c, 0)
 			if c.IsActive() {
 				c.Close()
 			} else {
 				c.closeCallback(false, false)
 			}
 		}()
+		verifPoint(vpTaskStart, c, 0)
 		// trigger onConnect first
 		if onConnect != nil && c.changeState(connStateNone, connStateConnected) {
 			c.ctx = onConnect(c.ctx, c)
+			verifPoint(vpAfterOnConnect, c, 0)
 			if !c.IsActive() && c.changeState(connStateConnected, connStateDisconnected) {
 				// since we hold connecting lock, so we should help to call onDisconnect here
 				onDisconnect, _ := c.onDisconnectCallback.Load().(OnDisconnect)
@@ -207,9 +218,12 @@ func (c *connection) onProcess(onConnect OnConnect, onRequest OnRequest) (proces
 					onDisconnect(c.ctx, c)
 				}
 			}
+			verifPoint(vpOnConnectBeforeUnlock, c, 0)
 			c.unlock(connecting)
+			verifPoint(vpOnConnectAfterUnlock, c, 0)
 		}
 	START:
+		verifPoint(vpProcessStart, c, 0)
 		// The `onRequest` must be executed at least once if conn have any readable data,
 		// which is in order to cover the `send & close by peer` case.
 		if onRequest != nil && c.Reader().Len() > 0 {
@@ -229,6 +243,7 @@ func (c *connection) onProcess(onConnect OnConnect, onRequest OnRequest) (proces
 		}
 		// handling callback if connection has been closed.
 		if closedBy != none {
+			verifPoint(vpProcessBeforeCloseCb, c, int(closedBy))
 			//  if closed by user when processing, it "may" needs detach
 			needDetach := closedBy == user
 			// Here is a corner case that operator will be detached twice:
@@ -239,7 +254,9 @@ func (c *connection) onProcess(onConnect OnConnect, onRequest OnRequest) (proces
 			panicked = false
 			return
 		}
+		verifPoint(vpProcessBeforeUnlock, c, 0)
 		c.unlock(processing)
+		verifPoint(vpProcessAfterUnlock, c, 0)
 		// Note: Poller's closeCallback call will try to get processing lock failed but here already near to unlock processing.
 		//       So here we need to check connection state again, to avoid connection leak
 		// double check close state
@@ -250,11 +267,13 @@ func (c *connection) onProcess(onConnect OnConnect, onRequest OnRequest) (proces
 			panicked = false
 			return
 		}
+		verifPoint(vpProcessBetweenChecks, c, 0)
 		// double check is processable
 		if onRequest != nil && c.Reader().Len() > 0 && c.lock(processing) {
 			goto START
 		}
 		// task exits
+		verifPoint(vpProcessExit, c, 0)
 		panicked = false
 	} // end of task closure func
 
@@ -267,9 +286,12 @@ func (c *connection) onProcess(onConnect OnConnect, onRequest OnRequest) (proces
 // It can be confirmed that closeCallback and onRequest will not be executed concurrently.
 // If onRequest is still running, it will trigger closeCallback on exit.
 func (c *connection) closeCallback(needLock, needDetach bool) (err error) {
+	verifPoint(vpCloseCbEnter, c, verifB2I(needLock)<<1|verifB2I(needDetach))
 	if needLock && !c.lock(processing) {
+		verifPoint(vpCloseCbLockFail, c, 0)
 		return nil
 	}
+	verifPoint(vpCloseCbLocked, c, 0)
 	if needDetach && c.operator.poll != nil { // If Close is called during OnPrepare, poll is not registered.
 		// PollDetach only happen when user call conn.Close() or poller detect error
 		if err := c.operator.Control(PollDetach); err != nil {
@@ -280,9 +302,11 @@ func (c *connection) closeCallback(needLock, needDetach bool) (err error) {
 	if latest == nil {
 		return nil
 	}
+	verifPoint(vpCloseCbBeforeRun, c, 0)
 	for callback := latest.(*callbackNode); callback != nil; callback = callback.pre {
 		callback.fn(c)
 	}
+	verifPoint(vpCloseCbDone, c, 0)
 	return nil
 }
 
